@@ -113,6 +113,7 @@ pub fn merge_stats(a: &mut RunStats, b: &RunStats) {
     a.restart_after_exit += b.restart_after_exit;
     a.forced_start += b.forced_start;
     a.clock_jumps += b.clock_jumps;
+    a.cpu_limited_threads += b.cpu_limited_threads;
     a.disk_fault_points += b.disk_fault_points;
     a.fs_write_fault_scenarios += b.fs_write_fault_scenarios;
     a.fs_write_faults_fired += b.fs_write_faults_fired;
@@ -867,22 +868,22 @@ fn world_file(g: &GenCtx, tables: &[Vec<u32>; 4], verif_seed: u64, w: u64) -> (R
         match variant {
             "one_thread_forced_order" => {
                 if pro.threads.is_empty() {
-                    pro.threads.push(crate::scenario::ThreadPlan { start: crate::scenario::Start::AtBegin, hash_key: 0, steps: Vec::new(), stack_kb: 0, exit_ops: Vec::new(), exit_guard_early: false });
+                    pro.threads.push(crate::scenario::ThreadPlan { start: crate::scenario::Start::AtBegin, hash_key: 0, steps: Vec::new(), stack_kb: 0, exit_ops: Vec::new(), exit_guard_early: false, cpus: 0 });
                 }
                 pro.threads[0].steps.push(step);
             }
             "poison_first" => {
                 if pro.threads.is_empty() {
-                    pro.threads.push(crate::scenario::ThreadPlan { start: crate::scenario::Start::AtBegin, hash_key: 0, steps: Vec::new(), stack_kb: 0, exit_ops: Vec::new(), exit_guard_early: false });
+                    pro.threads.push(crate::scenario::ThreadPlan { start: crate::scenario::Start::AtBegin, hash_key: 0, steps: Vec::new(), stack_kb: 0, exit_ops: Vec::new(), exit_guard_early: false, cpus: 0 });
                 }
                 pro.threads[0].steps.push(step);
             }
             "chained_threads_forced_order" => {
                 let start = if k == 0 { crate::scenario::Start::AtBegin } else { crate::scenario::Start::AfterExit((k - 1) as u8) };
-                pro.threads.push(crate::scenario::ThreadPlan { start, hash_key: 0, steps: vec![step], stack_kb: 0, exit_ops: Vec::new(), exit_guard_early: false });
+                pro.threads.push(crate::scenario::ThreadPlan { start, hash_key: 0, steps: vec![step], stack_kb: 0, exit_ops: Vec::new(), exit_guard_early: false, cpus: 0 });
             }
             _ => {
-                pro.threads.push(crate::scenario::ThreadPlan { start: crate::scenario::Start::AtBegin, hash_key: 0, steps: vec![step], stack_kb: 0, exit_ops: Vec::new(), exit_guard_early: false });
+                pro.threads.push(crate::scenario::ThreadPlan { start: crate::scenario::Start::AtBegin, hash_key: 0, steps: vec![step], stack_kb: 0, exit_ops: Vec::new(), exit_guard_early: false, cpus: 0 });
             }
         }
     }
@@ -936,6 +937,18 @@ pub fn chain_env(tmp: &str, log: &str, verif_seed: u64, w: u64) -> Vec<(String, 
         ("XDG_CACHE_HOME".to_string(), format!("{}/home/.cache", tmp)),
         ("A5SIM_FS_LOG".to_string(), log.to_string()),
     ];
+    if derive(verif_seed, 0x6678_0000 + w) % 12 == 0 {
+        // an unusable environment: the temp, home and cache directories do not exist
+        v[0].1 = format!("{}/gone", tmp);
+        for e in v.iter_mut() {
+            if e.0 == "HOME" {
+                e.1 = format!("{}/gone/home", tmp);
+            } else if e.0 == "XDG_CACHE_HOME" {
+                e.1 = format!("{}/gone/home/.cache", tmp);
+            }
+        }
+        v.push(("A5SIM_MISSING_DIRS".to_string(), "1".to_string()));
+    }
     let z = derive(verif_seed, 0x6677_0000 + w);
     if z % 5 < 2 {
         v.push(("A5SIM_FS_FAULT".to_string(), (z % 1_000_000 + 1).to_string()));
@@ -1044,6 +1057,9 @@ pub fn worlds_main(b: &WorldArgs) -> WorldsOut {
                     let env = chain_env(&tmp, &log, b.verif_seed, w);
                     if env.iter().any(|(k, _)| k == "A5SIM_FS_FAULT") {
                         *fs_stats.lock().unwrap().1.entry("worlds_with_write_faults(short write / ENOSPC / EIO on files the library opens)".to_string()).or_insert(0) += 1;
+                    }
+                    if env.iter().any(|(k, _)| k == "A5SIM_MISSING_DIRS") {
+                        *fs_stats.lock().unwrap().1.entry("worlds_whose_temp_home_and_cache_directories_do_not_exist".to_string()).or_insert(0) += 1;
                     }
                     crate::procs::CHILD_ENV.with(|e| {
                         *e.borrow_mut() = env;
